@@ -137,6 +137,10 @@ func (i *RoaringBitmapIter) Next() bool {
 		}
 
 		i.node = i.node.Next()
+		// the inner iterator belongs to the bucket just exhausted: drop it so
+		// that the next bucket gets its own (otherwise only the first bucket
+		// is ever enumerated)
+		i.iter = nil
 	}
 
 	return false
